@@ -331,7 +331,7 @@ class Ctx:
 class Interp:
     def __init__(self, ctx, contracts=None, loop_specs=None, models=None, target=None):
         from . import models as _models
-        from . import arrays as _arrays, nparr as _nparr, dt as _dt  # noqa  (register hooks)
+        from . import arrays as _arrays, nparr as _nparr, dt as _dt, layout as _layout  # noqa  (register hooks)
         self.ctx = ctx
         self.contracts = contracts or {}     # (relpath, qual) -> ModularContract
         self.loop_specs = loop_specs or {}   # (relpath, qual) -> {ordinal: LoopSpec}
@@ -1371,7 +1371,9 @@ class Interp:
             if is_sym(b) and not isinstance(a, (str,)) :
                 # a / b with symbolic divisor: q with q*b == a (keeps the query polynomial)
                 q = self.ctx.fresh('quot', 'Real')
-                self.ctx.assume(sym.eq(sym.mul(q, sym.to_real(b)), sym.to_real(a)))
+                fact = sym.eq(sym.mul(q, sym.to_real(b)), sym.to_real(a))
+                self.ctx.assume(fact)
+                self.ctx.ghost.setdefault('quotients', []).append((q, sym.to_real(a), sym.to_real(b), fact))
                 return q
             return sym.truediv(a, b)
         if isinstance(op, ast.FloorDiv):
